@@ -2,13 +2,16 @@ module verifharness
 
 go 1.20
 
-require github.com/artela-network/artela-evm v0.0.0
+require (
+	github.com/artela-network/artela-evm v0.0.0
+	github.com/artela-network/aspect-core v0.4.8-rc8
+	github.com/artela-network/aspect-runtime v0.4.8-rc8
+	github.com/ethereum/go-ethereum v1.12.0
+)
 
 require (
 	github.com/DataDog/zstd v1.5.2 // indirect
 	github.com/VictoriaMetrics/fastcache v1.6.0 // indirect
-	github.com/artela-network/aspect-core v0.4.8-rc8 // indirect
-	github.com/artela-network/aspect-runtime v0.4.8-rc8 // indirect
 	github.com/beorn7/perks v1.0.1 // indirect
 	github.com/bytecodealliance/wasmtime-go/v20 v20.0.0 // indirect
 	github.com/cespare/xxhash/v2 v2.2.0 // indirect
@@ -17,7 +20,6 @@ require (
 	github.com/cockroachdb/pebble v0.0.0-20230209160836-829675f94811 // indirect
 	github.com/cockroachdb/redact v1.1.3 // indirect
 	github.com/deckarep/golang-set/v2 v2.1.0 // indirect
-	github.com/ethereum/go-ethereum v1.12.0 // indirect
 	github.com/getsentry/sentry-go v0.18.0 // indirect
 	github.com/go-stack/stack v1.8.1 // indirect
 	github.com/gofrs/flock v0.8.1 // indirect
